@@ -12,7 +12,7 @@ PROP = dict(
                        "Comdex.C03.create_accepted_ratio_exact", "Comdex.C03.draw_accepted_ratio_exact",
                        "Comdex.C03.withdraw_accepted_ratio_exact"],
     harness_tests=["TestC01"],
-    monitors=["ratio_ok", "ratio_exact", "floor_kept", "ceiling_kept", "price_fail_closed"],
+    monitors=["ratio_ok", "ratio_exact", "floor_kept", "ceiling_kept", "ceiling_backed", "price_fail_closed"],
     trusted_base=[KERNEL_TB, HARNESS_TB, DEC_TB, VAULT_TB],
     assumptions=VAULT_ASSUME + ["the exact-rational form of the ratio clause carries the rounding slack of the chain's arithmetic explicitly: minCr - 1/2 * 10^-18 for decimal scales dividing 10^18 (only the final division rounds; the slack is attained, ratioOk_exact_tight), half a unit per value computation more for other scales"],
     rule="same generated histories as C01; amounts are boundary-directed: the harness solves amountIn for ratio == minCr and emits it and its "
